@@ -240,7 +240,9 @@ class Gen:
         else:
             e, v = self.expr()
             val = str(v)
-        return self.add(Form("out", '%s << "%s" << %s << newline;' % (self.d.out, m, e), marker=m, value=m + val))
+        sp = self.rng.choice([" ", " ", " ", "\t", "  "])
+        trail = self.rng.choice(["", "", "", "  ", "\t", " -- note (x"])
+        return self.add(Form("out", '%s <<%s"%s" << %s << newline;%s' % (self.d.out, sp, m, e, trail), marker=m, value=m + val))
 
     def g_domain(self, name=None):
         """a small domain with a representation, then an import; values go through it"""
@@ -467,6 +469,45 @@ class Gen:
             self.add(Form("out", '%s << "%s" << (%s(%d + z0))(%d + z0) << newline;' % (self.d.out, m, nm, a, b), marker=m, value=m + str((b * k + a) % M)))
         return self.forms[-1]
 
+    def g_tuple(self):
+        """tuple-valued steps: a bare tuple, a simultaneous assignment, a function returning several
+        values whose results are bound by one step"""
+        SI = self.d.SI
+        r = self.rng
+        vs = sorted(self.vars)
+        shape = r.below(3)
+        if shape == 0 and len(vs) >= 2:
+            a, b = r.sample(vs, 2)
+            k = r.range(1, 9)
+            self.add(Form("tuple-step", "(%s, %s);" % (a, b)))
+            self.vars[a], self.vars[b] = self.vars[b], self.vars[a] + k
+            self.add(Form("tuple-assign", "(%s, %s) := (%s, %s + %d);" % (a, b, b, a, k)))
+        elif shape == 1:
+            fn = self.fresh("d")
+            k = r.range(1, 9)
+            self.add(Form("fun-default", "%s(a: %s, b: %s == %d): %s == (a * 10 + b) rem %d;" % (fn, SI, SI, k, SI, M)))
+            x, y = r.range(0, 99), r.range(0, 99)
+            self.mark += 1
+            m = "@@%d:" % self.mark
+            return self.add(Form("out", '%s << "%s" << %s(%d + z0) + %s(%d + z0, %d + z0) << newline;' % (self.d.out, m, fn, x, fn, x, y),
+                                 marker=m, value=m + str((x * 10 + k) % M + (x * 10 + y) % M)))
+        else:
+            fn, a, b = self.fresh("t"), self.fresh("v"), self.fresh("v")
+            (e1, v1), (e2, v2) = self.bexpr(), self.bexpr()
+            self.add(Form("fun-multi", "%s(): (%s, %s) == (%s, %s);" % (fn, SI, SI, e1, e2)))
+            self.add(Form("multi-bind", "(%s, %s) := %s();" % (a, b, fn)))
+            self.vars[a], self.vars[b] = v1, v2
+        return self.g_out()
+
+    def g_longline(self):
+        """an output statement on one very long line (several thousand characters)"""
+        self.mark += 1
+        m = "@@%d:" % self.mark
+        n = self.rng.range(150, 600)
+        atoms = [self.atom() for _ in range(n)]
+        tot = sum(v for _, v in atoms)
+        return self.add(Form("out-long", '%s << "%s" << (%s) << newline;' % (self.d.out, m, " + ".join(a for a, _ in atoms)), marker=m, value=m + str(tot)))
+
     def g_heavy(self):
         """allocation-heavy steps: a long list built by a comprehension, consumed by a later step
         (forced collections and `#int gc' fall between and inside them)"""
@@ -665,7 +706,14 @@ class Gen:
         return self.add(Form("bad:" + k, '%s(a: %s): %s == a + "oops";' % (nm, SI, SI), good=False))
 
     def c_any(self):
-        k = self.rng.weighted([("gc", 6), ("blank", 2), ("comment", 2), ("history", 2), ("msglimit", 1), ("timing", 1)])
+        k = self.rng.weighted([("gc", 6), ("blank", 2), ("comment", 2), ("history", 2), ("msglimit", 1), ("timing", 1),
+                               ("verbose", 2), ("misc", 2)])
+        if k == "verbose":	# the per-step echo switched on / off in the middle of a session
+            self.verb = not getattr(self, "verb", self.d.name != "axllib")
+            return self.add(Form("ctl:verbose", "#int verbose %s" % ("on" if self.verb else "off"), good=None))
+        if k == "misc":
+            return self.add(Form("ctl:misc", self.rng.choice(["#int exntrace 1", "#int exntrace 0", "#int help", "#int %s" % self.fresh("nosuchoption"),
+                                                                "#int confirm on", "#int timing off   "]), good=None))
         if k == "gc":
             return self.add(Form("ctl:gc", "#int gc", good=None))
         if k == "history":
@@ -739,7 +787,7 @@ class Gen:
                                 ("macro", 4), ("ifblock", 5), ("include", 3 if len(self.files) < 3 else 0),
                                 ("out_split", 6), ("fun_split", 4), ("bump", 4), ("exprstep", 6), ("out_bump", 5 if self.bumps else 0),
                                 ("record", 5), ("array", 5), ("closure", 3), ("gener", 4), ("cond", 3),
-                                ("localmacro", 3), ("where", 3), ("macro2", 3), ("library", 2), ("heavy", 4), ("curried", 5)])
+                                ("localmacro", 3), ("where", 3), ("macro2", 3), ("library", 2), ("heavy", 4), ("curried", 5), ("tuple", 5), ("longline", 2)])
                 getattr(self, "g_" + k)()
         # every session ends with an output so the last state is observed
         self.g_out()
